@@ -166,6 +166,13 @@ func VerifC14Closed() {
 			b.Codec.(*verifChanCodec).in <- &Message{ID: id, Version: Version, Response: &Response{Result: json.RawMessage("0")}}
 		}
 	}
+	// a request without an id (a notification) whose handler calls back over the connection, sent to B
+	// while the calls are in flight: its handler must be able to get its call-back answered
+	notify := verifapi.Param("notify", 0) == 1
+	if notify {
+		params, _ := json.Marshal([]int64{verifapi.Int64("notify-token")})
+		a.Codec.(*verifChanCodec).out <- &Message{Version: Version, Request: &Request{Method: "callback", Params: params}}
+	}
 	for k := 0; k < n+nb; k++ {
 		r := <-done
 		verifapi.Assert(r.err == nil, "c14.call-succeeds")
@@ -184,7 +191,12 @@ func VerifC14Closed() {
 	for _, cnt := range ha.handled {
 		verifapi.Assert(cnt == 1, "c14.request-handled-exactly-once")
 	}
-	verifapi.Assert(len(hb.handled) == n, "c14.every-request-handled")
+	if notify {
+		verifapi.Assert(hb.handled[""] == 1, "c14.request-handled-exactly-once")
+		verifapi.Assert(len(hb.handled) == n+1 && len(ha.handled) >= 1, "c14.every-request-handled")
+	} else {
+		verifapi.Assert(len(hb.handled) == n, "c14.every-request-handled")
+	}
 	verifapi.Assert(nb == 0 || len(ha.handled) >= nb, "c14.every-request-handled")
 	a.mu.Lock()
 	verifapi.Assert(len(a.pending) <= junk, "c14.no-pending-left")
